@@ -463,10 +463,11 @@ def run_connect(cfg, clock):
 # ------------------------------------------------------------------------------------------------
 # sense / listen / exchange sessions (ClfSense)
 
-KINDS = ("found", "absent", "unsupported", "invalid", "commerr", "ioerror")
+KINDS = ("found", "absent", "unsupported", "invalid", "commerr", "ioerror", "badtype")
 LISTEN_KINDS = ("found", "none", "unsupported", "invalid", "ioerror")
 TECH = {"found": ("A", "B", "F", "D"), "absent": ("A", "B", "F", "D"), "unsupported": ("A", "B", "F", "D", "X"),
-        "invalid": ("A", "D"), "commerr": ("A", "B", "F", "D"), "ioerror": ("A", "B", "F", "D")}
+        "invalid": ("A", "D"), "commerr": ("A", "B", "F", "D"), "ioerror": ("A", "B", "F", "D"),
+        "badtype": ("L", "S", "N")}        # not a RemoteTarget: a LocalTarget, a brty string, None
 
 
 class SenseEnv(clfdev.Nothing):
@@ -512,6 +513,12 @@ class SenseEnv(clfdev.Nothing):
 
 
 def make_target(i, kind, tech):
+    if tech == "L":
+        return nfc.clf.LocalTarget("106A")
+    if tech == "S":
+        return "106A"
+    if tech == "N":
+        return None
     if tech == "X":
         t = nfc.clf.RemoteTarget("106X")
     elif tech == "D":
@@ -580,9 +587,10 @@ class SenseSession(object):
                 attempts = [x for x in log if x[0].startswith("sense_")]
                 muted = bool(log) and log[-1][0] == "mute"
                 first_mute = bool(log) and log[0][0] == "mute"
+                how_sent = "no-driver-call" if not log else ("mute-first" if first_mute else "no-mute-first")
                 per_round = len(attempts) // iters if res == "none" else len(attempts)
                 self.emit("Sense", kinds=list(kinds), iters=iters, res=res, idx=idx, muted=muted,
-                          nsense=len(attempts), sent="mute-first" if first_mute else "no-mute-first",
+                          nsense=len(attempts), sent=how_sent,
                           interval=int(round(interval * 1e6)), cycle=int(round(per_round * cost * 1e6)),
                           pauses=[int(round(x * 1e6)) for x in self.clock.sleep_log[s0:]])
                 self.dev.sense_cost = 0.0
@@ -697,6 +705,8 @@ def classify(tr, line, act, why, what):
             return "connect:guard:model-at=%s:got=%s" % (why[1].get("pc", "?"), where)
         return "connect:%s@%s:%s:got=%s" % (kind, where, c["env"], ev.get("r", ""))
     if kind == "inv":
+        if "ArgCheck" in why[1]:                  # one defect (late argument validation) shows in several clauses
+            return "sense:inv:ArgCheck@%s" % act
         return "sense:inv:%s@%s" % (",".join(why[1]), act)
     return "sense:%s@%s:res=%s,sent=%s,target=%s,field=%s" % (kind, act, ev.get("res", ""), ev.get("sent", ""),
                                                             ev.get("target", ""), ev.get("field", ""))
@@ -750,7 +760,7 @@ class McJob(object):
 
 W_CONNECT = ["W_RetTrue", "W_RetObj", "W_RetFalse", "W_RetNoneNoOpt", "W_TermInPresence", "W_ReleaseFalseLoops",
              "W_TagVanished", "W_PeerReleased", "W_ReaderLeft"]
-W_SENSE = ["W_Paused", "W_NoPauseLongCycle", "W_Second", "W_RaiseUnsupported", "W_IgnoredUnsupported", "W_StaleDropped", "W_ValueError",
+W_SENSE = ["W_BadArgAfterValid", "W_Paused", "W_NoPauseLongCycle", "W_Second", "W_RaiseUnsupported", "W_IgnoredUnsupported", "W_StaleDropped", "W_ValueError",
            "W_NoneMuted", "W_ExchangeNothing", "W_ListenRaisedAfterCapture", "W_SenseRaisedAfterCapture"]
 
 
